@@ -525,6 +525,17 @@ def run(ctx: Ctx) -> int:
             ctx.oblige("C01.g", ok, c, "the init_args of a class are reduced by the parser of that class" if ok else f"`{src(c, 60)}` reduces the init_args of a class with `{recv}`, which does not know the arguments of that class: entries of a Dict-typed init arg are removed one by one (opts={{'a': 1, 'b': 5}} is dumped as {{b: 5}}) and the dump parses back to a different value", fn=dd)
         else:
             consults = any(acts_v & {n_.id for n_ in ast.walk(t) if isinstance(n_, ast.Name)} for t, pol in at)
+            # the key looked up by _find_action and the prefix handed down are the FULL dotted key so far:
+            # <prefix parameter> + <loop key> [+ "."]
+            pre_p = dpar[3] if len(dpar) > 3 else None
+            if pre_p is not None:
+                passed = c.args[2] if len(c.args) > 2 else next((k.value for k in c.keywords if k.arg == pre_p), None)
+                nm_p = {n_.id for n_ in ast.walk(passed) if isinstance(n_, ast.Name)} if passed is not None else set()
+                okp = pre_p in nm_p and len(nm_p) >= 2
+                ctx.oblige("C01.g", okp, c, "the recursion into a group hands down the accumulated dotted prefix" if okp else f"the recursion into a group passes `{ast.unparse(passed) if passed is not None else 'no prefix'}` instead of `{pre_p} + <key> + '.'`: from the third nesting level on, leaf arguments are looked up under a truncated key, are not found, and a Dict-typed value there is reduced entry by entry ({{'train': 100, 'val': 20}} is dumped as {{val: 20}})", fn=dd, construct="accumulated prefix handed down")
+                for fa_ in [c2 for c2 in calls_in(dd) if call_leaf(c2) == "_find_action" and len(c2.args) >= 2]:
+                    okf = pre_p in {n_.id for n_ in ast.walk(fa_.args[1]) if isinstance(n_, ast.Name)}
+                    ctx.oblige("C01.g", okf, fa_, "the action is looked up under the full dotted key" if okf else f"`{src(fa_, 60)}` looks the action up without the accumulated prefix", fn=dd, construct="lookup under the full key")
             ok = recv == "self" and consults
             ctx.oblige("C01.g", ok, c, "entries inside a dict value are removed only for keys that are not leaf arguments (groups, subcommands, nested parsers)" if ok else f"`{src(c, 60)}` removes entries inside ANY dict value: for a Dict[str, int] argument with default {{'a': 1, 'b': 2}} the value {{'a': 1, 'b': 3}} is dumped as `b: 3`, which parses back to {{'b': 3}} - the skip_default dump is not lossless", fn=dd)
     for g_ in [c for c in calls_in(dd) if call_leaf(c) == "get" and root_name(c.func) == v_def]:
